@@ -162,4 +162,15 @@ def lanczosLoop (dbg : Bool) (b : SparseOpt) (ay : List Nat) :
       else some (st', acc.reverse)
     | .continue st' mk => lanczosLoop dbg b ay fuel st' ((mk, st'.ws.getLast?.getD [], st'.y) :: acc)
 
+/-- `kernel_lanczos` after `genblock`: the initial block, the main loop (with fuel) and the final stage
+(`lanczosFinal` of Model/Gf2.lean: B·Y, `kernel_gauss`, Y·K, removal of the null vectors) on the final `Y`;
+`none` = panic or out of fuel -/
+def kernelLanczos (dbg : Bool) (k : Nat) (cols : List (List Nat)) (y0 : List Nat) (fuel : Nat) : Option (List BVec) :=
+  match lanczosInit dbg (qsOptimize k cols) y0 with
+  | none => none
+  | some (st, ay) =>
+    match lanczosLoop dbg (qsOptimize k cols) ay fuel st [] with
+    | none => none
+    | some (st', _) => lanczosFinal k cols st'.y
+
 end Ymq.Gf2Lanczos
